@@ -133,6 +133,11 @@ def run(ctx):
         "TLC, SANY, CommunityModules Json/IOUtils, CPython, NumPy are trusted"]
     # ---- M
     ctx.mc("Mapping", "MC_Mapping", need_actions=("SortRemoved", "Advance", "Append1", "Return"))
+    # the machine refines the abstraction whose result is proved for EVERY reduction and position list (TLAPS, MappingProof_proofs.tla)
+    ctx.mc("MappingRefines", "MC_MappingRefines", need_actions=("SortRemoved", "Advance", "Append1", "Return"))
+    if not ctx.quick:
+        from harness import proofs
+        proofs.recheck(ctx, ["MappingProof_proofs"])
     # ---- G
     beh = ctx.gen("Mapping", "Gen_Mapping_quick" if ctx.quick else "Gen_Mapping_thorough")
     res = par.pmap(_replay_line, beh)
